@@ -2202,6 +2202,9 @@ def bad_values(rng):
         -1, -(2 ** 63), 2 ** 64, 2 ** 31, 255, 256, 65536, 10 ** 30, 0, 1, True, False,
         0.5, -0.0, 1e300, float("nan"), float("inf"), float("-inf"), 3.0,
         "", "abc", "x" * 40, b"", b"\x01", b"\x01\x02", b"\xff" * 3, b"\x00" * 33, None, [], [1, 2, 3], [0] * 256, [300], ["a"], {"other": 1},
+        # arrays of exactly the right length (A250, A256) whose *elements* are the problem: the container passes the type check
+        [0] * 250, [0] * 255 + [0.5], [None] + [0] * 255, [0] * 249 + ["7"], [b"\x07"] + [0] * 249, [0] * 128 + [[7]] + [0] * 127,
+        [300] + [0] * 255, [0] * 249 + [-1], [2 ** 70] + [0] * 249,
     ]
 
 
